@@ -620,10 +620,12 @@ impl<Ctx: DemuxContext> Demultiplex<Ctx> {
     /// `DemuxContent` object
     pub fn push(&mut self, ctx: &mut Ctx, buf: &[u8]) {
         // TODO: simplify
+        // chunks that do not start with a sync byte are skipped; the packets after them are
+        // still processed, so that the result does not depend on how the data is cut into buffers
         let mut itr = buf
             .chunks_exact(packet::Packet::SIZE)
-            .map(packet::Packet::try_new);
-        let mut pk = if let Some(Some(p)) = itr.next() {
+            .filter_map(packet::Packet::try_new);
+        let mut pk = if let Some(p) = itr.next() {
             p
         } else {
             return;
@@ -652,7 +654,7 @@ impl<Ctx: DemuxContext> Demultiplex<Ctx> {
                         break 'inner;
                     }
                 }
-                pk = if let Some(Some(p)) = itr.next() {
+                pk = if let Some(p) = itr.next() {
                     p
                 } else {
                     break 'outer;
@@ -665,7 +667,7 @@ impl<Ctx: DemuxContext> Demultiplex<Ctx> {
                 ctx.filter_changeset().apply(&mut self.processor_by_pid);
             }
             debug_assert!(ctx.filter_changeset().is_empty());
-            pk = if let Some(Some(p)) = itr.next() {
+            pk = if let Some(p) = itr.next() {
                 p
             } else {
                 break 'outer;
